@@ -103,6 +103,10 @@ TraceNext ==
                                    k \in {x \in DOMAIN e.queries : x \notin DOMAIN qsnaps[e.h] \/ qsnaps[e.h][x] # e.queries[x]}}
                            ELSE {})
                  /\ UNCHANGED <<recs, tainted, impTaint, qsnaps, nscn, ncommit>>
+            \* a panic while a block was processed: the chain halts (whatever property is being checked, this breaks it)
+            [] e.ev = "halt" ->
+                 /\ viol' = viol \cup {Sig(p, "block-processing-panicked", "-", e) : p \in {"C01", "C15", "C19", "C20"}}
+                 /\ UNCHANGED <<recs, restarted, restartedAt, tainted, impTaint, qsnaps, nscn, ncommit>>
             [] e.ev = "qsnap" ->
                  /\ qsnaps' = (e.h :> e.queries) @@ qsnaps
                  /\ UNCHANGED <<recs, restarted, restartedAt, tainted, impTaint, viol, nscn, ncommit>>
